@@ -86,8 +86,10 @@ def run(ctx):
             if d_['root_callee'] not in reactor_table.FIND:
                 continue
             ent_, reg_ = hb_.arm_entries(OPTION, {'None'}, k_)
-            hs_ = loop_headers_containing(hb_, ent_[0]) if ent_ else []
-            if not hs_:
+            fsd_ = hb_.single_def(d_['root'])
+            # the loop is the one that contains the lookup (a None arm that returns is not part of the natural loop any more)
+            hs_ = loop_headers_containing(hb_, fsd_[0]) if fsd_ else []
+            if not hs_ or not ent_:
                 continue
             r_ = hb_.reach_from(ent_, avoid=hs_[:1])
             leaves = [x for x in hb_.returns() if x in r_]
